@@ -87,5 +87,25 @@ check("C13",
       technique="complete enumeration of a finite configuration space on the implementation against a documented table",
       engine="explore", design="3/C13")
 
+check("C03",
+      passes=[dict(name="C03", src=["harness/C03.cpp"] + ENV, variant="fast", flags=["-fno-access-control"],
+                   shards={"quick": 14, "thorough": 16}),
+              dict(name="C03asan", src=["harness/C03.cpp"] + ENV, variant="asan", flags=["-fno-access-control"],
+                   shards={"quick": 10, "thorough": 10}, args={"quick": ["--sweeps-only"], "thorough": ["--sweeps-only"]})],
+      rule="(1) EVERY sequence of intern() calls of length <= 4 (quick) / <= 5 (thorough) over a 14-word alphabet (lengths "
+           "0,1,7,8,9,23,24,25; equal-length neighbours; embedded NULs; unterminated view; reserved word and near misses) under "
+           "three hash personalities (real, one bucket, length-only), each on a fresh pool, source buffer scribbled after every "
+           "call, every String returned so far re-read after every step and identity compared with content equality against "
+           "a std::map model; (2) sweeps: lengths 0..300, 256 byte values x 4 positions, 42 (remaining,needed) roll-over shapes "
+           "confirmed by introspection, 34 oversize shapes, 7*10^4 words across pools; (3) all 56 reserved words through 5 routes "
+           "and ~2000 near misses. The sweeps are repeated under ASan+UBSan. distinct_nontrivial = histories with a repeated word.",
+      text="All operation sequences up to the bound plus deterministic boundary sweeps on the real string pool and "
+           "arena, against a map reference model re-validated after every step.",
+      note="std::_Hash_bytes is interposed by the harness executable to force bucket collisions; private arena state is "
+           "read (-fno-access-control) only to confirm that each roll-over shape was really reached.",
+      technique="exhaustive enumeration of operation sequences up to a depth bound on the implementation, with environment "
+                "deviations (hash personalities), against a reference model",
+      engine="explore", design="3/C03")
+
 # Properties not claimed (with the reason that goes to MANIFEST.not_applicable).
 NOT_CLAIMED = {}
